@@ -536,10 +536,17 @@ pub fn oracle_c06(rng: &mut Rng, tier: &str) -> Report {
         }
         rep.stats.insert(format!("corpus_splits:{}", name), k);
     }
+    long_input_oracle(&mut rep, th, false);
+    rep
+}
+
+/// Very long tokens and very long runs of terminator bytes (also run by `pgh deepprobe` in a
+/// debug build, where no recursion is optimised into a loop).
+pub fn long_input_oracle(rep: &mut Report, th: bool, probe: bool) {
     // very long tokens (just above every power of two from 64 KiB to 32 MiB) in each kind of
     // line, and very long runs of terminator bytes: a long line is still one line, the lines
     // after it are still parsed, and nothing recurses per byte
-    let exps: Vec<u32> = if th { (16..=26).collect() } else { vec![16, 20, 23, 25] };
+    let exps: Vec<u32> = if probe { vec![16, 21] } else if th { (16..=26).collect() } else { vec![16, 20, 23, 25] };
     for e in exps {
         let len = (1usize << e) + 1;
         let big = "x".repeat(len);
@@ -555,8 +562,8 @@ pub fn oracle_c06(rng: &mut Rng, tier: &str) -> Report {
             }
             let b = b"o.B -> b:\n    void m() -> k\n# tail: v\n";
             let before = rep.failures.len();
-            check_resync(&mut rep, a.as_bytes(), b, b'\n');
-            check_resync(&mut rep, a.as_bytes(), b, b'\r');
+            check_resync(rep, a.as_bytes(), b, b'\n');
+            check_resync(rep, a.as_bytes(), b, b'\r');
             for f in rep.failures.iter_mut().skip(before) {
                 // (the generic replay would embed the whole input)
                 f.ops = vec![format!("# A = a mapping whose last line has a {}-byte token ({}), B = {:?}", len, kind, String::from_utf8_lossy(b))];
@@ -565,7 +572,7 @@ pub fn oracle_c06(rng: &mut Rng, tier: &str) -> Report {
             rep.count("long_token_lines");
         }
     }
-    for run in if th { vec![1000usize, 30_000, 100_000, 1 << 20, 1 << 24] } else { vec![1000usize, 30_000, 100_000, 1 << 20] } {
+    for run in if probe { vec![30_000usize, 1 << 20] } else if th { vec![1000usize, 30_000, 100_000, 1 << 20, 1 << 24] } else { vec![1000usize, 30_000, 100_000, 1 << 20] } {
         for t in [&b"\n"[..], b"\r", b"\r\n", b"\n\r"] {
             let mut a = b"o.A -> a:".to_vec();
             for _ in 0..run / t.len() {
@@ -598,6 +605,54 @@ pub fn oracle_c06(rng: &mut Rng, tier: &str) -> Report {
                 f.detail.truncate(300);
             }
             rep.count("long_terminator_runs");
+        }
+    }
+}
+
+/// `pgh deepprobe`: the inputs on which recursion depth matters, for a build without optimisation
+pub fn deep_probe() -> Report {
+    let mut rep = Report::new();
+    let part = std::env::var("PGH_DEEP").unwrap_or_default();
+    if part.is_empty() || part == "long" {
+        let mut r = Report::new();
+        if catch_unwind(AssertUnwindSafe(|| long_input_oracle(&mut r, false, true))).is_err() {
+            r.fail("a very long token / run of terminators made the parser panic", vec!["# deepprobe: long inputs".into()], String::new());
+        }
+        rep.checks += r.checks;
+        rep.nontrivial += r.nontrivial;
+        rep.failures.extend(r.failures);
+        rep.stats.extend(r.stats);
+    }
+    if part.is_empty() || part == "chain" {
+        deep_chain_oracle(&mut rep, &[20_000], false);
+    }
+    if !(part.is_empty() || part == "sig") {
+        return rep;
+    }
+    let sig_part = catch_unwind(AssertUnwindSafe(|| deep_sig_probe()));
+    match sig_part {
+        Ok(r) => {
+            rep.checks += r.checks;
+            rep.failures.extend(r.failures);
+        }
+        Err(_) => rep.fail("a descriptor with very many array dimensions / parameters made signature deobfuscation panic", vec![format!("SIG {}", hxs(&format!("({}I)V", "[".repeat(300))))], "panic (arithmetic overflow?) in an unoptimised build with overflow checks".into()),
+    }
+    rep
+}
+
+fn deep_sig_probe() -> Report {
+    let mut rep = Report::new();
+    // descriptors: many array dimensions / parameters
+    let m = ProguardMapper::new(ProguardMapping::new(b"o.A -> a:\n"));
+    for n in [10_000usize, 200_000] {
+        rep.checks += 2;
+        let sig = format!("({}I)V", "[".repeat(n));
+        if m.deobfuscate_signature(&sig).is_none() {
+            rep.fail("descriptor with many array dimensions", vec![format!("# {} dimensions", n)], String::new());
+        }
+        let sig = format!("({})V", "La;".repeat(n));
+        if m.deobfuscate_signature(&sig).map(|s| s.parameters_types().count()) != Some(n) {
+            rep.fail("descriptor with many parameters", vec![format!("# {} parameters", n)], String::new());
         }
     }
     rep
@@ -812,15 +867,17 @@ pub fn deep_chain_oracle(rep: &mut Report, depths: &[usize], drop_probe: bool) {
             if printed != t {
                 fails.push("print(parse(t)) != t for a canonical deep trace".to_string());
             }
+            // (printed forms are compared: the derived `PartialEq` recurses per level in an
+            // unoptimised build — part of known finding F9)
             let copy = parsed.clone();
-            if copy != parsed {
+            if copy.to_string() != printed {
                 fails.push("clone differs".to_string());
             }
             let tm = mapper.remap_stacktrace_typed(&parsed);
             let tc = cache.remap_stacktrace_typed(&parsed);
             let text = mapper.remap_stacktrace(&t);
             let textc = cache.remap_stacktrace(&t);
-            if tm != tc {
+            if tm.to_string() != tc.to_string() {
                 fails.push("typed remap: mapper and cache differ".to_string());
             }
             match (text, textc) {
@@ -1369,6 +1426,59 @@ pub fn oracle_c14(seed: u64, tier: &str) -> Report {
         if i < 2 {
             rep.sample(format!("{} byte mapping -> {} byte cache, fnv {:016x}", m.len(), b.len(), fnv(&b)));
         }
+    }
+    // order dependence on one thread: for mappings whose caches have the SAME length (but other
+    // section sizes), B written right after A must equal B written by a fresh thread
+    {
+        let mut rng = Rng::new(seed ^ 0xC14_5E9);
+        let mut by_len: BTreeMap<usize, Vec<Vec<u8>>> = BTreeMap::new();
+        let names = ["a", "b", "x.y", "com.example.Foo", "obfuscated.name", "o.A", "q", "é"];
+        for _ in 0..(if thorough(tier) { 6000 } else { 1500 }) {
+            let mut t = String::new();
+            for _ in 0..rng.range(1, 3) {
+                t.push_str(&format!("{} -> {}:\n", rng.pick(&names), rng.pick(&names)));
+                for _ in 0..rng.below(3) {
+                    t.push_str(&format!("    {}void {}({}) -> {}\n", rng.pick(&["", "1:2:", "3:3:"]), rng.pick(&["m", "run", "get"]), rng.pick(&["", "int"]), rng.pick(&["a", "b"])));
+                }
+            }
+            let text = t.into_bytes();
+            let len = proto::cur::write_cache_safe(&text).len();
+            let e = by_len.entry(len).or_default();
+            if e.len() < 6 && !e.contains(&text) {
+                e.push(text);
+            }
+        }
+        let mut pairs = 0u64;
+        for (_, group) in by_len.iter() {
+            for a in group {
+                for b in group {
+                    if a == b {
+                        continue;
+                    }
+                    let (a2, b2) = (a.clone(), b.clone());
+                    let fresh = {
+                        let b3 = b.clone();
+                        std::thread::spawn(move || proto::cur::write_cache_safe(&b3)).join().unwrap_or_default()
+                    };
+                    let after = std::thread::spawn(move || {
+                        let _ = proto::cur::write_cache_safe(&a2);
+                        proto::cur::write_cache_safe(&b2)
+                    }).join().unwrap_or_default();
+                    rep.checks += 1;
+                    pairs += 1;
+                    if fresh != after {
+                        rep.fail(
+                            "the cache written for B depends on what the same thread wrote before (A, whose cache has the same length)",
+                            vec![format!("MAP {}", hx(a)), "WRITE".into(), format!("MAP {}", hx(b)), "WRITE".into()],
+                            format!("first differing byte at {:?}", fresh.iter().zip(after.iter()).position(|(x, y)| x != y)),
+                        );
+                    } else {
+                        rep.nontrivial += 1;
+                    }
+                }
+            }
+        }
+        rep.stats.insert("equal_length_pairs".into(), pairs);
     }
     rep
 }
